@@ -65,37 +65,46 @@ def splitSign : List Char → Bool × List Char
 
 /-- C `strtol`-style integer token (whole token must be consumed). -/
 def parseInt? (t : Tok) : Option Int :=
-  let (neg, r) := splitSign t
-  match parseNat? r with
-  | some k => some (if neg then -(k : Int) else (k : Int))
+  match parseNat? (splitSign t).2 with
+  | some k => some (if (splitSign t).1 then -(k : Int) else (k : Int))
   | none => none
 
 def pow10 (e : Int) : Rat :=
   if 0 ≤ e then ((10 ^ e.toNat : Nat) : Rat) else 1 / ((10 ^ (-e).toNat : Nat) : Rat)
 
+/-- exponent part of a decimal token: empty, or `(e|E) [+-] digits`. -/
+def parseExp? (r : List Char) : Option Int :=
+  match r with
+  | [] => some 0
+  | c :: r3 =>
+    if c = 'e' ∨ c = 'E' then
+      match parseNat? (splitSign r3).2 with
+      | some k => some (if (splitSign r3).1 then -(k : Int) else (k : Int))
+      | none => none
+    else none
+
+/-- fraction part after the integer digits: `. digits` or nothing; returns (fraction digits, rest). -/
+def fracPart (r1 : List Char) : List Char × List Char :=
+  match r1 with
+  | '.' :: r' => r'.span isDigit
+  | _ => ([], r1)
+
+/-- unsigned decimal: `digits [. digits] [exponent]` with at least one mantissa digit. -/
+def parseUnsigned? (r : List Char) : Option Rat :=
+  let ip := (r.span isDigit).1
+  let fr := fracPart (r.span isDigit).2
+  if ip = [] ∧ fr.1 = [] then none else
+  match parseExp? fr.2 with
+  | none => none
+  | some ex =>
+    some (((digitsVal (ip ++ fr.1) 0 : Nat) : Rat) / ((10 ^ fr.1.length : Nat) : Rat) * pow10 ex)
+
 /-- C `strtod`-style decimal token: `[+-] digits [. digits] [(e|E) [+-] digits]`, at least one
     mantissa digit, whole token consumed.  (No hex floats / inf / nan: never written.) -/
 def parseNum? (t : Tok) : Option Rat :=
-  let (neg, r) := splitSign t
-  let (ip, r1) := r.span isDigit
-  let (fp, r2) := match r1 with
-    | '.' :: r' => r'.span isDigit
-    | _ => ([], r1)
-  if ip = [] ∧ fp = [] then none else
-  let ex? : Option Int := match r2 with
-    | [] => some 0
-    | c :: r3 =>
-      if c = 'e' ∨ c = 'E' then
-        let (eneg, r4) := splitSign r3
-        match parseNat? r4 with
-        | some k => some (if eneg then -(k : Int) else (k : Int))
-        | none => none
-      else none
-  match ex? with
+  match parseUnsigned? (splitSign t).2 with
+  | some v => some (if (splitSign t).1 then -v else v)
   | none => none
-  | some ex =>
-    let v : Rat := ((digitsVal (ip ++ fp) 0 : Nat) : Rat) / ((10 ^ fp.length : Nat) : Rat) * pow10 ex
-    some (if neg then -v else v)
 
 /-! ### correctly rounded `%.nf` and `%.ne` -/
 
@@ -463,8 +472,25 @@ def flagCells (flags : List (V3 Int)) : List (List Cell) :=
   if flags.all (fun f => f.x = 0 ∧ f.y = 0 ∧ f.z = 0) then []
   else flags.map fun f => [.int f.x, .int f.y, .int f.z]
 
-/-- `atom_data.dump(system, atom_style, units, natypes, float_format)`: the file as a document. -/
-def writeDataDoc (s : Sys) (style : String) (u : Units) (f : Fmt) : Res DataOut := do
+/-- the numbers a data file carries, before printing. -/
+structure DataParts where
+  natoms : Nat
+  natypes : Nat
+  hilo : HiLo
+  rows : List (List Cell)
+  vel : Option (List (List Cell))
+deriving Repr
+
+/-- the text layout of a data file (header, box lines, `Atoms # style` table, optional `Velocities`). -/
+def dataDocOf (f : Fmt) (style : String) (p : DataParts) : Doc :=
+  [[], [natTok p.natoms, cs!"atoms"], [natTok p.natypes, cs!"atom", cs!"types"]] ++ boxLines f p.hilo ++
+  [[], [cs!"Atoms", cs!"#"] ++ (styleWords style).map strTok, []] ++ rowsDoc f p.rows ++
+  (match p.vel with
+   | some vr => [[], [cs!"Velocities"], []] ++ rowsDoc f vr
+   | none => [])
+
+/-- wrap with image flags, convert to the unit style, build the Atoms / Velocities tables. -/
+def dataParts (s : Sys) (style : String) (u : Units) : Res (DataParts × Wrapped) := do
   let w := wrap s.box s.pbc s.pos
   if !w.box.isLammpsNorm then throw "assert"
   let lf ← lengthFactor u
@@ -480,12 +506,13 @@ def writeDataDoc (s : Sys) (style : String) (u : Units) (f : Fmt) : Res DataOut 
         | some c => pure c
         | none => throw "value"
       let vr ← tableRows s' u ids w.pos vc []
-      pure ([[], [cs!"Velocities"], []] ++ rowsDoc f vr)
-    else pure []
-  let doc : Doc :=
-    [[], [natTok s.natoms, cs!"atoms"], [natTok s.natypes, cs!"atom", cs!"types"]] ++ boxLines f h ++
-    [[], [cs!"Atoms", cs!"#"] ++ (styleWords style).map strTok, []] ++ rowsDoc f rows ++ vel
-  pure { doc := doc, wrapped := w }
+      pure (some vr)
+    else pure none
+  pure ({ natoms := s.natoms, natypes := s.natypes, hilo := h, rows := rows, vel := vel }, w)
+
+/-- `atom_data.dump(system, atom_style, units, natypes, float_format)`: the file as a document. -/
+def writeDataDoc (s : Sys) (style : String) (u : Units) (f : Fmt) : Res DataOut :=
+  (dataParts s style u).map fun pw => { doc := dataDocOf f style pw.1, wrapped := pw.2 }
 
 def writeData (s : Sys) (style : String) (u : Units) (f : Fmt) : Res (List Char) :=
   (writeDataDoc s style u f).map fun o => renderLines o.doc
@@ -504,6 +531,12 @@ def infoDoc (pbc : V3 Bool) (style units : String) (fname : Option String) : Doc
 
 def infoContent (pbc : V3 Bool) (style units : String) (fname : Option String) : List Char :=
   renderLines (infoDoc pbc style units fname)
+
+/-- `atom_data.dump(..., return_info=True)`: the file content and the command snippet, both produced from
+    the same `style` / `unitsName` (`u` = the conversion factors of that unit style). -/
+def dumpData (s : Sys) (style unitsName : String) (u : Units) (f : Fmt) (fname : Option String) :
+    Res (List Char × List Char) :=
+  (writeData s style u f).map fun content => (content, infoContent s.pbc style unitsName fname)
 
 /-! ### LAMMPS dump file (atomman/dump/atom_dump/dump.py) -/
 
@@ -610,14 +643,17 @@ structure PoscarNums where
   coords : List (V3 Rat)
 deriving Repr
 
+/-- values of the atoms of type `1, 2, …, ntypes` in that order (original order within a type). -/
+def groupByType {α : Type} (atype : List Int) (xs : List α) (ntypes : Nat) : List α :=
+  ((List.range ntypes).map fun (i : Nat) =>
+    ((List.zip atype xs).filter (fun e => decide (e.1 = (i : Int) + 1))).map (·.2)).flatten
+
 def poscarNums (s : Sys) (cartesian : Bool) (scale : Rat) : PoscarNums :=
   let coords0 := if cartesian then s.pos.map (v3div · scale) else s.pos.map s.box.cartToRel
-  let byType (t : Int) : List (V3 Rat) :=
-    ((List.zip s.atype coords0).filter (·.1 = t)).map (·.2)
   { scale := scale,
     lattice := ⟨v3div s.box.vects.r0 scale, v3div s.box.vects.r1 scale, v3div s.box.vects.r2 scale⟩,
     counts := (List.range (maxType s.atype).toNat).map fun (i : Nat) => countType s.atype ((i : Int) + 1),
-    coords := ((List.range s.natypes).map fun (i : Nat) => byType ((i : Int) + 1)).flatten }
+    coords := groupByType s.atype coords0 s.natypes }
 
 /-- `poscar.dump(system, header, symbols, coordstyle, box_scale, float_format)`; `coordstyle` is a
     single word here. -/
@@ -709,7 +745,9 @@ def lammpsDumpColumns : List (String × Option String) :=
    ("xs", some "scaled"), ("ys", some "scaled"), ("zs", some "scaled"),
    ("xu", some "length"), ("yu", some "length"), ("zu", some "length"),
    ("xsu", some "scaled"), ("ysu", some "scaled"), ("zsu", some "scaled"),
-   ("ix", none), ("iy", none), ("iz", none),
+   -- atomman keeps `boximage` as a Cartesian shift and writes it box-relative ("scaled"); LAMMPS itself
+   -- writes integer image counts.  The table records atomman's convention (see docs/C07.md, not enforced).
+   ("ix", some "scaled"), ("iy", some "scaled"), ("iz", some "scaled"),
    ("vx", some "velocity"), ("vy", some "velocity"), ("vz", some "velocity"),
    ("fx", some "force"), ("fy", some "force"), ("fz", some "force"),
    ("q", some "charge"), ("mux", some "dipole"), ("muy", some "dipole"), ("muz", some "dipole"),
